@@ -710,9 +710,21 @@ func (e *Engine) typeFacts(st *State, v Val) {
 	}
 }
 
+// loopScopePos: the position at which a loop's invariants resolve names: just
+// inside the body, where the variables declared by the loop header are visible.
+func loopScopePos(s ast.Stmt) token.Pos {
+	switch l := s.(type) {
+	case *ast.ForStmt:
+		return l.Body.Lbrace + 1
+	case *ast.RangeStmt:
+		return l.Body.Lbrace + 1
+	}
+	return s.Pos()
+}
+
 func (e *Engine) checkInvs(st *State, s ast.Stmt, kind string, extra func(env *SpecEnv)) error {
 	for i, inv := range e.loopInvariants(s) {
-		env := e.newEnv(st, s.Pos())
+		env := e.newEnv(st, loopScopePos(s))
 		if extra != nil {
 			extra(env)
 		}
@@ -731,7 +743,7 @@ func (e *Engine) checkInvs(st *State, s ast.Stmt, kind string, extra func(env *S
 
 func (e *Engine) assumeInvs(st *State, s ast.Stmt, extra func(env *SpecEnv)) error {
 	for _, inv := range e.loopInvariants(s) {
-		env := e.newEnv(st, s.Pos())
+		env := e.newEnv(st, loopScopePos(s))
 		if extra != nil {
 			extra(env)
 		}
